@@ -35,7 +35,7 @@ SYM = "krrood.entity_query_language.symbolic"
 CS = "krrood.entity_query_language.conclusion_selector"
 FUNCTIONS = [(EI, "EQLTranslator.translate_query"), (EI, "EQLTranslator.translate_and"), (EI, "EQLTranslator.translate_or"),
              (EI, "EQLTranslator._collect_logical_parts"), (EI, "EQLTranslator._combine_logical_parts"),
-             (EI, "OperatorMapper.map_comparison_operator"), (EI, "EQLTranslator.translate_attribute"), (EI, "EQLTranslator.translate_comparator"), (EI, "EQLTranslator._handle_contains_operator"),
+             (EI, "OperatorMapper.map_comparison_operator"), (EI, "OperatorMapper.map_contains_operator"), (EI, "EQLTranslator.translate_attribute"), (EI, "EQLTranslator.translate_comparator"), (EI, "EQLTranslator._handle_contains_operator"),
              (EI, "EQLTranslator._assert_variable_is_selected_or_joined"), (EI, "EQLTranslator._walk_attribute_chain"),
              (EI, "EQLTranslator._collect_attribute_chain"), (EI, "EQLTranslator._extract_base_class"),
              (EI, "EQLTranslator.evaluate"), (EI, "EQLTranslator.translate"), (EI, "AttributeChainResolver.extract_leaf_variable"),
@@ -44,11 +44,12 @@ FUNCTIONS = [(EI, "EQLTranslator.translate_query"), (EI, "EQLTranslator.translat
 ASSUMPTIONS = [
     "SQLAlchemy column operators (==, <, IS DISTINCT FROM, in_, and_, or_, select, join) mean what their names say on SQLite "
     "(validated natively by the bounded driver on every run)",
+    "SQL instr(a, b) > 0 is the exact, case-sensitive substring test `b in a` of Python strings (true on SQLite); LIKE-based operators are not",
     "get_dao_class maps a class to its generated DAO (C13 registry) and the DAO's columns carry the field values (C04 / C06)",
 ]
 TRUSTED = ["SQLAlchemy / SQLite semantics"]
 BOUNDED_ONLY_CLAUSES = ["that an accepted query selects the same entities on the database as in memory (incl. the(...) failing in both worlds)",
-                        "contains / in_ translation and relationship-equality joins (string / set operators of SQLAlchemy)"]
+                        "relationship-equality joins (set operators of SQLAlchemy); the contains / in_ forms are pinned to `IN` / `instr` terms deductively, what those mean on the database is bounded"]
 
 
 def cls(vm, mod, name):
@@ -73,10 +74,16 @@ class Sql(Opaque):
             return Builtin("is_distinct_from", lambda it, fr, a, k: Sql(("is_distinct_from", self.term, term_of(a[0]))))
         if name == "in_":
             return Builtin("in_", lambda it, fr, a, k: Sql(("in", self.term, term_of(a[0]))))
+        if name in ("contains", "like", "ilike", "startswith", "endswith", "icontains"):
+            # pattern matching (LIKE): wildcards in the text and backend collation -- not Python's substring test
+            return Builtin(name, lambda it, fr, a, k: Sql(("like:" + name, self.term, term_of(a[0]))))
         vm.raise_("AttributeError", name)
 
     def m_truth(self, vm):
         return True
+
+    def m_isinstance(self, vm, c):
+        return False          # a column / SQL expression is no str, list, tuple or set
 
 
 def term_of(x):
@@ -96,7 +103,20 @@ def install_sql(vm):
     L = vm.loader
     L.externals[("sqlalchemy", "and_")] = Builtin("and_", lambda it, fr, a, k: Sql(("and",) + tuple(term_of(x) for x in a)))
     L.externals[("sqlalchemy", "or_")] = Builtin("or_", lambda it, fr, a, k: Sql(("or",) + tuple(term_of(x) for x in a)))
+    L.externals[("sqlalchemy", "literal")] = Builtin("literal", lambda it, fr, a, k: Sql(("literal", term_of(a[0]))))
+    L.externals[("sqlalchemy", "not_")] = Builtin("not_", lambda it, fr, a, k: Sql(("not", term_of(a[0]))))
+    L.externals[("sqlalchemy", "func")] = SqlFunc()
     L.externals[("sqlalchemy", "select")] = Builtin("select", lambda it, fr, a, k: Statement(("select", a[0])))
+
+
+class SqlFunc(Opaque):
+    """sqlalchemy.func: func.<name>(args) is the SQL function call"""
+
+    def __init__(self):
+        super().__init__("sqlalchemy.func")
+
+    def m_getattr(self, vm, name):
+        return Builtin("func." + name, lambda it, fr, a, k: Sql(("fn:" + name,) + tuple(term_of(x) for x in a)))
 
 
 class Statement(Opaque):
@@ -370,6 +390,36 @@ def h_membership():
     return Harness("membership", run, spec=Spec())
 
 
+def h_string_containment():
+    """contains / in_ between a text and a column (either way round) or two columns is SQL's exact substring test
+    instr(container, item) > 0 -- the meaning of Python's `item in container` for strings -- and its negation for not_contains;
+    never a LIKE pattern match (the text's "_" / "%" would be wildcards, and LIKE folds case on SQLite)."""
+    def run(vm):
+        ctx = vm.ctx
+        install_sql(vm)
+        om = vm.alloc(cls(vm, EI, "OperatorMapper"), {}, tag="mapper")
+        col, col2 = Sql(("T.name",)), Sql(("U.name",))
+        forms = [("text-contains-column", "some text", col, ("fn:instr", ("literal", "some text"), ("T.name",))),
+                 ("column-contains-text", col, "txt", ("fn:instr", ("T.name",), ("literal", "txt"))),
+                 ("column-contains-column", col, col2, ("fn:instr", ("T.name",), ("U.name",)))]
+        for opname in ("contains", "not_contains"):
+            op = vm.alloc(vm.ext("object"), {"__name__": opname}, tag=f"operator-{opname}")
+            for label, left, right, instr in forms:
+                try:
+                    got = vm.call_method(om, "map_contains_operator", op, left, right)
+                except PyRaise as pr:
+                    ctx.fail(f"OperatorMapper.map_contains_operator::{label}-is-the-exact-substring-test", detail=f"{opname}: raised {pr.exc!r}")
+                    continue
+                want = (">", instr, 0)
+                want = ("not", want) if opname == "not_contains" else want
+                ctx.check(f"OperatorMapper.map_contains_operator::{label}-is-the-exact-substring-test", z3.BoolVal(isinstance(got, Sql) and got.term == want),
+                          detail=f"{opname}: {got!r}, expected {want!r}")
+            got = vm.call_method(om, "map_contains_operator", op, "some text", "me t")
+            want = ("literal", True) if opname == "contains" else ("not", ("literal", True))
+            ctx.check("OperatorMapper.map_contains_operator::two-texts-are-decided-at-translation-time", z3.BoolVal(isinstance(got, Sql) and got.term == want), detail=repr(got))
+    return Harness("string-containment", run, spec=Spec())
+
+
 def h_error_hierarchy():
     """every raise statement of the module raises (a call of) a class below EQLTranslationError"""
     def run(vm):
@@ -404,4 +454,4 @@ def h_canary():
 
 
 def harnesses():
-    return [h_dispatch(), h_logical(), h_operators(), h_attribute_guard(), h_evaluate_and_translate(), h_walk_chain(), h_membership(), h_error_hierarchy(), h_canary()]
+    return [h_dispatch(), h_logical(), h_operators(), h_attribute_guard(), h_evaluate_and_translate(), h_walk_chain(), h_membership(), h_string_containment(), h_error_hierarchy(), h_canary()]
